@@ -31,16 +31,26 @@ macro_rules! narrow_bodies {
                 if x < 0 { -(q as RS) } else { q as RS }
             }
 
+            // Quotients are specified multiplicatively (q == floor(p/c) <=> q*c <= p < (q+1)*c), which
+            // avoids a second divider circuit in the formula.
+
             /// the narrow `MulDiv` impls themselves (hook code mirroring the u64 impl)
             pub fn mul_div() {
                 let (a, b, c): (T, T, T) = (kani::any(), kani::any(), kani::any());
                 let f = a.checked_mul_div(&b, &c);
                 let g = a.checked_mul_div_ceil(&b, &c);
+                let p = u(a) * u(b);
                 if u(c) == 0 {
                     assert!(f.is_none() && g.is_none(), "C01: mul_div with a zero denominator did not fail");
                 } else {
-                    assert!(f.map(u) == fit(mul_div_floor(u(a), u(b), u(c))), "C01: checked_mul_div is not floor(a*b/c) / fails although the result fits");
-                    assert!(g.map(u) == fit(mul_div_ceil(u(a), u(b), u(c))), "C01: checked_mul_div_ceil is not ceil(a*b/c) / fails although the result fits");
+                    match f {
+                        Some(q) => assert!(is_floor_div(u(q), p, u(c)), "C01: checked_mul_div is not floor(a*b/c)"),
+                        None => assert!(p >= (TMAX + 1) * u(c), "C01: checked_mul_div fails although floor(a*b/c) fits"),
+                    }
+                    match g {
+                        Some(q) => assert!(is_ceil_div(u(q), p, u(c)), "C01: checked_mul_div_ceil is not ceil(a*b/c)"),
+                        None => assert!(p > TMAX * u(c), "C01: checked_mul_div_ceil fails although ceil(a*b/c) fits"),
+                    }
                 }
                 kani::cover!(f.is_some() && g.is_some() && f != g, "floor != ceil");
                 kani::cover!(f.is_some() && g.is_none(), "only the ceiling overflows");
@@ -53,13 +63,13 @@ macro_rules! narrow_bodies {
                 match got {
                     Some(q) => {
                         assert!(u(d) != 0);
-                        assert!(u(q) == div_ceil(u(a), u(d)), "C01: checked_round_up_div is not ceil(a/d)");
+                        assert!(is_ceil_div(u(q), u(a), u(d)), "C01: checked_round_up_div is not ceil(a/d)");
                     }
                     // documented intermediate: a + d (checked_add) must fit
                     None => assert!(u(d) == 0 || u(a) + u(d) > TMAX, "C01: checked_round_up_div fails although a + d is representable"),
                 }
-                kani::cover!(got.is_some() && u(a) % u(d).max(1) != 0 && u(a) > u(d), "rounded up");
-                kani::cover!(got.is_some() && u(a) % u(d).max(1) == 0 && u(a) > 0, "exact");
+                kani::cover!(got.map_or(false, |q| u(q) * u(d) > u(a) && u(q) > 1), "rounded up");
+                kani::cover!(got.map_or(false, |q| u(q) * u(d) == u(a) && u(q) > 1), "exact");
                 kani::cover!(got.is_none() && u(d) != 0, "intermediate overflow");
             }
 
@@ -70,7 +80,8 @@ macro_rules! narrow_bodies {
                 match got {
                     Some(q) => {
                         assert!(u(d) != 0 && u(d) <= SMAX as R);
-                        assert!(s(q) == with_sign(x, div_ceil(mag(x), u(d))), "C01: round-up-magnitude division is not sign(x)*ceil(|x|/d)");
+                        assert!(is_ceil_div(mag(q), mag(x), u(d)), "C01: round-up-magnitude division: |result| is not ceil(|x|/d)");
+                        assert!(q == 0 || (q < 0) == (x < 0), "C01: round-up-magnitude division changed the sign");
                     }
                     // documented intermediates: d as signed; x - d + 1 (negative x) / x + d - 1 (else), step by step
                     None => assert!(
@@ -78,9 +89,26 @@ macro_rules! narrow_bodies {
                         "C01: round-up-magnitude division fails although every intermediate is representable"
                     ),
                 }
-                kani::cover!(got.is_some() && x < 0 && mag(x) % u(d).max(1) != 0 && mag(x) > u(d), "negative, magnitude rounded up");
-                kani::cover!(got.is_some() && x > 0 && mag(x) % u(d).max(1) != 0 && mag(x) > u(d), "positive, rounded up");
+                kani::cover!(got.map_or(false, |q| x < 0 && mag(q) * u(d) > mag(x) && mag(q) > 1), "negative, magnitude rounded up");
+                kani::cover!(got.map_or(false, |q| x > 0 && mag(q) * u(d) > mag(x) && mag(q) > 1), "positive, rounded up");
                 kani::cover!(got.is_none() && u(d) != 0 && u(d) <= SMAX as R, "intermediate overflow");
+            }
+
+            pub fn mul_div_signed_numerator() {
+                let (x, d): (T, T) = (kani::any(), kani::any());
+                let n: S = kani::any();
+                let got = x.checked_mul_div_with_signed_numerator(&n, &d);
+                let p = u(x) * mag(n);
+                match got {
+                    Some(q) => {
+                        assert!(u(d) != 0);
+                        assert!(is_floor_div(mag(q), p, u(d)), "C01: mul_div with signed numerator: |result| is not floor(x*|n|/d)");
+                        assert!(q == 0 || (q < 0) == (n < 0), "C01: mul_div with signed numerator changed the sign");
+                    }
+                    None => assert!(u(d) == 0 || p >= (SMAX as R + 1) * u(d), "C01: mul_div with signed numerator fails although the magnitude fits the signed type"),
+                }
+                kani::cover!(got.map_or(false, |q| n < 0 && mag(q) * u(d) < p && mag(q) > 0), "negative, truncated towards zero");
+                kani::cover!(got.is_none() && u(d) != 0, "overflow");
             }
 
             pub fn signed_arith() {
@@ -161,84 +189,89 @@ macro_rules! narrow_bodies {
                 core::mem::forget(got);
             }
 
-            pub fn mul_div_signed_numerator() {
-                let (x, d): (T, T) = (kani::any(), kani::any());
-                let n: S = kani::any();
-                let got = x.checked_mul_div_with_signed_numerator(&n, &d);
-                match got {
-                    Some(q) => {
-                        assert!(u(d) != 0);
-                        assert!(s(q) == with_sign(n, mul_div_floor(u(x), mag(n), u(d))), "C01: mul_div with signed numerator is not sign(n)*floor(x*|n|/d)");
-                    }
-                    None => assert!(u(d) == 0 || mul_div_floor(u(x), mag(n), u(d)) > SMAX as R, "C01: mul_div with signed numerator fails although the magnitude fits the signed type"),
-                }
-                kani::cover!(got.is_some() && n < 0 && (u(x) * mag(n)) % u(d).max(1) != 0 && mul_div_floor(u(x), mag(n), u(d).max(1)) > 0, "negative, truncated towards zero");
-                kani::cover!(got.is_none() && u(d) != 0, "overflow");
-            }
-
-            pub fn factors() {
-                let (v, f, dv): (T, T, T) = (kani::any(), kani::any(), kani::any());
+            /// helpers that divide by the constant UNIT
+            pub fn factors_unit_divisor() {
+                let (v, f): (T, T) = (kani::any(), kani::any());
                 let a = utils::apply_factor::<T, D>(&v, &f);
                 assert!(a.map(u) == fit(mul_div_floor(u(v), u(f), UNIT)), "C01: apply_factor is not floor(v*f/UNIT) / fails although it fits");
-                let up: bool = kani::any();
-                let q = utils::div_to_factor::<T, D>(&v, &dv, up);
-                if u(dv) == 0 {
-                    assert!(q.map(u) == Some(0), "C01: div_to_factor with a zero divisor is not zero");
-                } else {
-                    let want = if up { mul_div_ceil(u(v), UNIT, u(dv)) } else { mul_div_floor(u(v), UNIT, u(dv)) };
-                    assert!(q.map(u) == fit(want), "C01: div_to_factor is not floor/ceil(v*UNIT/d) / fails although it fits");
-                }
-                let sv: S = kani::any();
-                let qs = utils::div_to_factor_signed::<T, D>(&sv, &dv);
-                if u(dv) == 0 {
-                    assert!(qs.map(s) == Some(0));
-                } else {
-                    let m = mul_div_floor(UNIT, mag(sv), u(dv));
-                    match qs {
-                        Some(x) => assert!(s(x) == with_sign(sv, m), "C01: div_to_factor_signed is not sign(v)*floor(|v|*UNIT/d)"),
-                        None => assert!(m > SMAX as R, "C01: div_to_factor_signed fails although the magnitude fits"),
-                    }
-                }
                 let fm = Fixed::<T, D>::from_inner(v).checked_mul(&Fixed::from_inner(f));
                 assert!(fm.map(|x| u(x.into_inner())) == fit(mul_div_floor(u(v), u(f), UNIT)), "C01: Fixed::checked_mul is not floor(a*b/UNIT)");
                 kani::cover!(a.is_none());
                 kani::cover!(a.is_some() && (u(v) * u(f)) % UNIT != 0 && u(v) * u(f) > UNIT);
-                kani::cover!(q.is_some() && up && u(dv) != 0 && (u(v) * UNIT) % u(dv).max(1) != 0);
-                kani::cover!(qs.is_some() && sv < 0 && u(dv) > 1);
+            }
+
+            /// helpers that divide by a symbolic divisor
+            pub fn factors_any_divisor() {
+                let (v, dv): (T, T) = (kani::any(), kani::any());
+                let up: bool = kani::any();
+                let q = utils::div_to_factor::<T, D>(&v, &dv, up);
+                let p = u(v) * UNIT;
+                if u(dv) == 0 {
+                    assert!(q.map(u) == Some(0), "C01: div_to_factor with a zero divisor is not zero");
+                } else {
+                    match q {
+                        Some(q) if up => assert!(is_ceil_div(u(q), p, u(dv)), "C01: div_to_factor (round up) is not ceil(v*UNIT/d)"),
+                        Some(q) => assert!(is_floor_div(u(q), p, u(dv)), "C01: div_to_factor is not floor(v*UNIT/d)"),
+                        None if up => assert!(p > TMAX * u(dv), "C01: div_to_factor (round up) fails although the result fits"),
+                        None => assert!(p >= (TMAX + 1) * u(dv), "C01: div_to_factor fails although the result fits"),
+                    }
+                }
+                let sv: S = kani::any();
+                let qs = utils::div_to_factor_signed::<T, D>(&sv, &dv);
+                let ps = UNIT * mag(sv);
+                if u(dv) == 0 {
+                    assert!(qs.map(s) == Some(0));
+                } else {
+                    match qs {
+                        Some(x) => {
+                            assert!(is_floor_div(mag(x), ps, u(dv)), "C01: div_to_factor_signed: |result| is not floor(|v|*UNIT/d)");
+                            assert!(x == 0 || (x < 0) == (sv < 0), "C01: div_to_factor_signed changed the sign");
+                        }
+                        None => assert!(ps >= (SMAX as R + 1) * u(dv), "C01: div_to_factor_signed fails although the magnitude fits"),
+                    }
+                }
+                kani::cover!(q.map_or(false, |q| up && u(dv) != 0 && u(q) * u(dv) > p && u(q) > 1));
+                kani::cover!(q.is_none());
+                kani::cover!(qs.map_or(false, |x| x < -1 && u(dv) > 1));
                 kani::cover!(qs.is_none());
             }
 
             pub fn market_token_conversions() {
                 let (usd, pv, supply, divisor): (T, T, T, T) = (kani::any(), kani::any(), kani::any(), kani::any());
                 let got = utils::usd_to_market_token_amount(usd, pv, supply, divisor);
-                let want = if u(divisor) == 0 {
-                    None
+                if u(divisor) == 0 {
+                    assert!(got.is_none(), "C01: usd_to_market_token_amount with a zero divisor did not fail");
                 } else if u(supply) == 0 && u(pv) == 0 {
-                    Some(u(usd) / u(divisor))
+                    assert!(got.map_or(false, |q| is_floor_div(u(q), u(usd), u(divisor))), "C01: first mint is not floor(usd/divisor)");
                 } else if u(supply) == 0 {
                     // documented intermediate: pool_value + usd_value must fit
-                    match fit(u(pv) + u(usd)) {
-                        Some(x) => Some(x / u(divisor)),
-                        None => None,
+                    match got {
+                        Some(q) => assert!(u(pv) + u(usd) <= TMAX && is_floor_div(u(q), u(pv) + u(usd), u(divisor)), "C01: mint on an unowned pool value is not floor((pool_value+usd)/divisor)"),
+                        None => assert!(u(pv) + u(usd) > TMAX, "C01: usd_to_market_token_amount fails although pool_value + usd fits"),
                     }
                 } else if u(pv) == 0 {
-                    None
+                    assert!(got.is_none(), "C01: usd_to_market_token_amount with supply but no pool value did not fail");
                 } else {
-                    fit(mul_div_floor(u(supply), u(usd), u(pv)))
-                };
-                assert!(got.map(u) == want, "C01: usd_to_market_token_amount differs from the documented floor computation");
+                    match got {
+                        Some(q) => assert!(is_floor_div(u(q), u(supply) * u(usd), u(pv)), "C01: usd_to_market_token_amount is not floor(supply*usd/pool_value)"),
+                        None => assert!(u(supply) * u(usd) >= (TMAX + 1) * u(pv), "C01: usd_to_market_token_amount fails although the result fits"),
+                    }
+                }
                 let amount: T = kani::any();
                 let back = utils::market_token_amount_to_usd(&amount, &pv, &supply);
                 if u(supply) == 0 {
                     assert!(back.is_none(), "C01: market_token_amount_to_usd with zero supply did not fail");
                 } else {
-                    assert!(back.map(u) == fit(mul_div_floor(u(pv), u(amount), u(supply))), "C01: market_token_amount_to_usd is not floor(pool_value*amount/supply)");
+                    match back {
+                        Some(q) => assert!(is_floor_div(u(q), u(pv) * u(amount), u(supply)), "C01: market_token_amount_to_usd is not floor(pool_value*amount/supply)"),
+                        None => assert!(u(pv) * u(amount) >= (TMAX + 1) * u(supply), "C01: market_token_amount_to_usd fails although the result fits"),
+                    }
                 }
                 kani::cover!(got.is_some() && u(supply) == 0 && u(pv) == 0 && u(usd) > u(divisor));
                 kani::cover!(got.is_some() && u(supply) == 0 && u(pv) != 0);
-                kani::cover!(got.is_some() && u(supply) != 0 && (u(supply) * u(usd)) % u(pv).max(1) != 0);
+                kani::cover!(got.map_or(false, |q| u(supply) != 0 && u(q) * u(pv) < u(supply) * u(usd) && u(q) > 0));
                 kani::cover!(got.is_none() && u(divisor) != 0 && u(pv) != 0);
-                kani::cover!(back.is_some() && (u(pv) * u(amount)) % u(supply).max(1) != 0);
+                kani::cover!(back.map_or(false, |q| u(q) * u(supply) < u(pv) * u(amount) && u(q) > 0));
             }
 
             /// integer-exponent `Fixed::checked_pow` (the loop shared by every width)
@@ -368,29 +401,48 @@ wide_bodies!(x64, u64, i64);
 wide_bodies!(x128, u128, i128);
 
 // ---- (a) generic helpers at reduced width ---------------------------------------------------
+// u8 / DECIMALS=1: every helper, every operand value (quick).  u16 / DECIMALS=2: quick for the helpers
+// without a symbolic divisor, thorough for the ones that divide by a symbolic value (two 16-bit divider
+// circuits: 8-10 min each).
 
 //@ prop=C01 tier=quick kind=hold
-//@ enc=<u16 as MulDiv>::{checked_mul_div,checked_mul_div_ceil} (narrow hook impl mirroring the u64 impl)
-//@ bound=width-reduced T=u16: every u16 operand triple (incl. zero denominator)
+//@ enc=<u8 as MulDiv>::{checked_mul_div,checked_mul_div_ceil} (narrow hook impl mirroring the u64 impl), Unsigned::checked_round_up_div, Unsigned::as_divisor_to_round_up_magnitude_div, MulDiv::checked_mul_div_with_signed_numerator
+//@ bound=width-reduced T=u8/i8: every operand value (incl. zero divisors)
 #[kani::proof]
-fn c01_narrow_mul_div_u16() {
-    w16::mul_div();
+fn c01_division_helpers_u8() {
+    w8::mul_div();
+    w8::round_up_div();
+    w8::round_up_magnitude_div();
+    w8::mul_div_signed_numerator();
 }
 
 //@ prop=C01 tier=quick kind=hold
-//@ enc=Unsigned::checked_round_up_div (generic default method)
-//@ bound=width-reduced T=u16: every u16 dividend/divisor
+//@ enc=Unsigned::{checked_add_with_signed,checked_sub_with_signed,checked_mul_with_signed,to_signed,to_opposite_signed,to_signed_with_sign,checked_signed_sub,bound_magnitude}
+//@ bound=width-reduced T=u8/i8: every operand value
 #[kani::proof]
-fn c01_round_up_div_u16() {
-    w16::round_up_div();
+fn c01_signed_helpers_u8() {
+    w8::signed_arith();
+    w8::conversions();
+    w8::bound_magnitude();
 }
 
 //@ prop=C01 tier=quick kind=hold
-//@ enc=Unsigned::as_divisor_to_round_up_magnitude_div (generic default method)
-//@ bound=width-reduced T=u16/i16: every u16 divisor, every i16 dividend
+//@ enc=utils::{apply_factor,div_to_factor,div_to_factor_signed}, Fixed::{checked_mul,checked_pow}, FixedPointOps::checked_pow_fixed (integer-exponent loop)
+//@ bound=width-reduced T=u8, DECIMALS=1 (UNIT 10): every operand value; pow exponent in {0..4}*UNIT (unwind 6)
 #[kani::proof]
-fn c01_round_up_magnitude_div_u16() {
-    w16::round_up_magnitude_div();
+#[kani::unwind(6)]
+fn c01_factor_helpers_u8() {
+    w8::factors_unit_divisor();
+    w8::factors_any_divisor();
+    w8::pow(4);
+}
+
+//@ prop=C01 tier=quick kind=hold
+//@ enc=utils::{usd_to_market_token_amount,market_token_amount_to_usd}
+//@ bound=width-reduced T=u8: every u8 usd value, pool value, supply, divisor, amount
+#[kani::proof]
+fn c01_market_token_conversions_u8() {
+    w8::market_token_conversions();
 }
 
 //@ prop=C01 tier=quick kind=hold
@@ -402,7 +454,7 @@ fn c01_signed_arith_u16() {
 }
 
 //@ prop=C01 tier=quick kind=hold
-//@ enc=Unsigned::{to_signed,to_opposite_signed,checked_signed_sub,to_signed_with_sign} (generic default methods)
+//@ enc=Unsigned::{to_signed,to_opposite_signed,checked_signed_sub} (generic default methods)
 //@ bound=width-reduced T=u16/i16: every u16 operand pair
 #[kani::proof]
 fn c01_conversions_u16() {
@@ -410,7 +462,7 @@ fn c01_conversions_u16() {
 }
 
 //@ prop=C01 tier=quick kind=hold
-//@ enc=Unsigned::bound_magnitude (generic default method)
+//@ enc=Unsigned::{bound_magnitude,to_signed_with_sign} (generic default methods)
 //@ bound=width-reduced T=u16/i16: every i16 value, every u16 min/max
 #[kani::proof]
 fn c01_bound_magnitude_u16() {
@@ -418,27 +470,11 @@ fn c01_bound_magnitude_u16() {
 }
 
 //@ prop=C01 tier=quick kind=hold
-//@ enc=MulDiv::checked_mul_div_with_signed_numerator (generic default method)
-//@ bound=width-reduced T=u16/i16: every u16 multiplicand/denominator, every i16 numerator
+//@ enc=utils::apply_factor, Fixed::checked_mul
+//@ bound=width-reduced T=u16, DECIMALS=2: every u16 operand pair
 #[kani::proof]
-fn c01_mul_div_signed_numerator_u16() {
-    w16::mul_div_signed_numerator();
-}
-
-//@ prop=C01 tier=quick kind=hold
-//@ enc=utils::{apply_factor,div_to_factor,div_to_factor_signed}, Fixed::checked_mul
-//@ bound=width-reduced T=u16, DECIMALS=2: every u16 / i16 operand
-#[kani::proof]
-fn c01_factor_helpers_u16() {
-    w16::factors();
-}
-
-//@ prop=C01 tier=quick kind=hold
-//@ enc=utils::{usd_to_market_token_amount,market_token_amount_to_usd}
-//@ bound=width-reduced T=u16: every u16 usd value, pool value, supply, divisor, amount
-#[kani::proof]
-fn c01_market_token_conversions_u16() {
-    w16::market_token_conversions();
+fn c01_apply_factor_u16() {
+    w16::factors_unit_divisor();
 }
 
 //@ prop=C01 tier=quick kind=hold
@@ -450,22 +486,58 @@ fn c01_integer_pow_u16() {
     w16::pow(4);
 }
 
-//@ prop=C01 tier=quick kind=hold
-//@ enc=all of the above helpers at T=u8, DECIMALS=1 (one harness; every u8/i8 operand; pow exponent in {0..4}*UNIT, unwind 6)
-//@ bound=width-reduced T=u8, DECIMALS=1: every u8 / i8 operand
+//@ prop=C01 tier=thorough kind=hold
+//@ enc=<u16 as MulDiv>::{checked_mul_div,checked_mul_div_ceil} (narrow hook impl mirroring the u64 impl)
+//@ bound=width-reduced T=u16: every u16 operand triple (incl. zero denominator)
+//@ timeout=5400 mem=30
 #[kani::proof]
-#[kani::unwind(6)]
-fn c01_all_helpers_u8() {
-    w8::mul_div();
-    w8::round_up_div();
-    w8::round_up_magnitude_div();
-    w8::signed_arith();
-    w8::conversions();
-    w8::bound_magnitude();
-    w8::mul_div_signed_numerator();
-    w8::factors();
-    w8::market_token_conversions();
-    w8::pow(4);
+fn c01_narrow_mul_div_u16() {
+    w16::mul_div();
+}
+
+//@ prop=C01 tier=thorough kind=hold
+//@ enc=Unsigned::checked_round_up_div (generic default method)
+//@ bound=width-reduced T=u16: every u16 dividend/divisor
+//@ timeout=5400 mem=30
+#[kani::proof]
+fn c01_round_up_div_u16() {
+    w16::round_up_div();
+}
+
+//@ prop=C01 tier=thorough kind=hold
+//@ enc=Unsigned::as_divisor_to_round_up_magnitude_div (generic default method)
+//@ bound=width-reduced T=u16/i16: every u16 divisor, every i16 dividend
+//@ timeout=5400 mem=30
+#[kani::proof]
+fn c01_round_up_magnitude_div_u16() {
+    w16::round_up_magnitude_div();
+}
+
+//@ prop=C01 tier=thorough kind=hold
+//@ enc=MulDiv::checked_mul_div_with_signed_numerator (generic default method)
+//@ bound=width-reduced T=u16/i16: every u16 multiplicand/denominator, every i16 numerator
+//@ timeout=5400 mem=30
+#[kani::proof]
+fn c01_mul_div_signed_numerator_u16() {
+    w16::mul_div_signed_numerator();
+}
+
+//@ prop=C01 tier=thorough kind=hold
+//@ enc=utils::{div_to_factor,div_to_factor_signed}
+//@ bound=width-reduced T=u16, DECIMALS=2: every u16 / i16 operand
+//@ timeout=5400 mem=30
+#[kani::proof]
+fn c01_div_to_factor_u16() {
+    w16::factors_any_divisor();
+}
+
+//@ prop=C01 tier=thorough kind=hold
+//@ enc=utils::{usd_to_market_token_amount,market_token_amount_to_usd}
+//@ bound=width-reduced T=u16: every u16 usd value, pool value, supply, divisor, amount
+//@ timeout=5400 mem=30
+#[kani::proof]
+fn c01_market_token_conversions_u16() {
+    w16::market_token_conversions();
 }
 
 // ---- (b) comparison/add/sub-only helpers at the production widths ---------------------------
